@@ -63,16 +63,23 @@ func valJSON(tok string, expand func(string) string) string {
 
 func expandQuoted(quoted string, expand func(string) string) string { return expand(quoted) }
 
-func gunTimeout(tmo string) string {
-	if tmo == "" || tmo == "0" {
-		return ""
+// gunTimeout: the gun's `timeout` option; tmoms (milliseconds) takes precedence over tmo (seconds); 0 / absent =
+// option not written (the gun's default applies).
+func gunTimeout(kv map[string]string) string {
+	if ms := kv["tmoms"]; ms != "" && ms != "0" {
+		return ms + "ms"
 	}
-	return tmo + "s"
+	if tmo := kv["tmo"]; tmo != "" && tmo != "0" {
+		return tmo + "s"
+	}
+	return ""
 }
 
 // ---------------------------------------------------------------- mode=json
 
-func jsonAmmoFile(entries string) string {
+// jsonAmmoFile writes one JSON line per entry. With omitEmpty an entry without metadata / payload has no such key at
+// all (the way hand-written ammo looks), otherwise it has an empty object.
+func jsonAmmoFile(entries string, omitEmpty bool) string {
 	var b strings.Builder
 	for _, e := range splitNE(entries, ";") {
 		parts := strings.Split(e, "|")
@@ -91,14 +98,21 @@ func jsonAmmoFile(entries string) string {
 		}
 		tag, _ := json.Marshal(c20lib.Dec(parts[0]))
 		call, _ := json.Marshal(c20lib.Dec(parts[1]))
-		fmt.Fprintf(&b, `{"tag":%s,"call":%s,"metadata":{%s},"payload":{%s}}`+"\n", tag, call, strings.Join(md, ","), strings.Join(pl, ","))
+		fmt.Fprintf(&b, `{"tag":%s,"call":%s`, tag, call)
+		if len(md) > 0 || !omitEmpty {
+			fmt.Fprintf(&b, `,"metadata":{%s}`, strings.Join(md, ","))
+		}
+		if len(pl) > 0 || !omitEmpty {
+			fmt.Fprintf(&b, `,"payload":{%s}`, strings.Join(pl, ","))
+		}
+		b.WriteString("}\n")
 	}
 	return b.String()
 }
 
 func gunSection(kind, addr string, kv map[string]string) map[string]any {
 	g := map[string]any{"type": kind, "target": addr}
-	if t := gunTimeout(kv["tmo"]); t != "" {
+	if t := gunTimeout(kv); t != "" {
 		g["timeout"] = t
 	}
 	if sc, _ := strconv.Atoi(kv["sc"]); sc > 0 && kind == "grpc" {
@@ -121,6 +135,9 @@ func poolYAML(gun, ammo map[string]any, rps map[string]any, n int) string {
 }
 
 func runJSON(kv map[string]string) string {
+	if kv["run"] == "sched" {
+		return runJSONSched(kv)
+	}
 	srv, err := c20lib.StartServer()
 	if err != nil {
 		return "ENV " + err.Error()
@@ -130,13 +147,65 @@ func runJSON(kv map[string]string) string {
 	if n < 1 {
 		n = 1
 	}
-	file := c20lib.WriteFile(".jsonl", jsonAmmoFile(kv["e"]))
+	file := c20lib.WriteFile(".jsonl", jsonAmmoFile(kv["e"], kv["oe"] == "1"))
 	y := poolYAML(gunSection("grpc", srv.Addr, kv),
 		map[string]any{"type": "grpc/json", "file": file, "passes": 1},
 		map[string]any{"type": "unlimited", "duration": "120s"}, n)
 	aggr := &c20lib.Aggr{}
 	res := c20lib.RunEngine(y, aggr, 60*time.Second)
 	return fmt.Sprintf("run=%s calls=%s samples=%s", orDash(res), orDash(c20lib.SortedCalls(srv.Calls())), orDash(c20lib.SortedSamples(aggr.Samples())))
+}
+
+// runJSONSched: the real grpc/json provider and n real guns (made, warmed up and bound the way the instance pool
+// does it), entry k fired by instance sched[k], one at a time by one goroutine. Observation: the trace shot by shot
+// and the number of distinct connections the calls arrived on.
+func runJSONSched(kv map[string]string) string {
+	srv, err := c20lib.StartServer()
+	if err != nil {
+		return "ENV " + err.Error()
+	}
+	defer srv.Stop()
+	n, _ := strconv.Atoi(kv["n"])
+	if n < 1 {
+		n = 1
+	}
+	file := c20lib.WriteFile(".jsonl", jsonAmmoFile(kv["e"], kv["oe"] == "1"))
+	y := poolYAML(gunSection("grpc", srv.Addr, kv),
+		map[string]any{"type": "grpc/json", "file": file, "passes": 1},
+		map[string]any{"type": "once", "times": 1}, n)
+	m, err := c20lib.NewManual(y, n)
+	if err != nil {
+		return "setup=" + c20lib.Enc(c20lib.Trunc(err.Error(), 160))
+	}
+	defer m.Close()
+	var shots []string
+	for _, ch := range kv["sched"] {
+		i := int(ch - '0')
+		if i < 0 || i >= n {
+			return "ENV bad sched"
+		}
+		c0, s0 := len(srv.Calls()), len(m.Aggr.Samples())
+		a, ok, hang := m.Acquire(5 * time.Second)
+		if hang {
+			shots = append(shots, "acquire-hang")
+			break
+		}
+		if !ok {
+			shots = append(shots, "out-of-ammo")
+			break
+		}
+		m.Guns[i].Shoot(a)
+		m.Provider.Release(a)
+		var cs, ss []string
+		for _, c := range srv.Calls()[c0:] {
+			cs = append(cs, c20lib.CallText(c))
+		}
+		for _, s := range m.Aggr.Samples()[s0:] {
+			ss = append(ss, c20lib.SampleText(s))
+		}
+		shots = append(shots, fmt.Sprintf("%d#%s#%s", i, orDash(strings.Join(cs, "+")), orDash(strings.Join(ss, "+"))))
+	}
+	return "t=" + strings.Join(shots, ";") + " conns=" + strconv.Itoa(c20lib.DistinctPeers(srv.Calls()))
 }
 
 func orDash(s string) string {
@@ -154,7 +223,7 @@ func runTable(kv map[string]string) string {
 		return "ENV " + err.Error()
 	}
 	defer srv.Stop()
-	file := c20lib.WriteFile(".jsonl", "")
+	file := c20lib.WriteFile(".jsonl", jsonAmmoFile("t|target.TargetService.Stats||", false))
 	y := poolYAML(gunSection("grpc", srv.Addr, kv), map[string]any{"type": "grpc/json", "file": file, "passes": 1},
 		map[string]any{"type": "once", "times": 1}, 1)
 	m, err := c20lib.NewManual(y, 1)
@@ -243,6 +312,11 @@ func scenAmmoFile(kv map[string]string) string {
 		w, _ := strconv.Atoi(p[1])
 		var reqs []string
 		for _, r := range splitNE(p[2], "+") {
+			// sleep<ms>: the scenario's sleep(ms) pseudo request (time only, nothing on the wire)
+			if ms, isSleep := strings.CutPrefix(r, "sleep"); isSleep && ms != "" && strings.Trim(ms, "0123456789") == "" {
+				reqs = append(reqs, "sleep("+ms+")")
+				continue
+			}
 			name, cnt, has := strings.Cut(r, "*")
 			if has {
 				reqs = append(reqs, name+"("+cnt+")")
@@ -396,6 +470,12 @@ func class(input, obs string) string {
 	c := kv["mode"]
 	switch kv["mode"] {
 	case "json":
+		if kv["run"] == "sched" {
+			c += "/sched"
+		}
+		if len(strings.Split(kv["e"], ";")) > 130 {
+			c += "/long"
+		}
 		c += "/n" + kv["n"]
 		if kv["sc"] != "" && kv["sc"] != "0" {
 			c += "/shared"
@@ -408,6 +488,9 @@ func class(input, obs string) string {
 		}
 	case "scen":
 		c += "/" + kv["run"] + "/n" + kv["n"]
+		if strings.Contains(kv["scns"], "sleep") {
+			c += "/sleeps"
+		}
 		if strings.Contains(kv["calls"], "{U}") || strings.Contains(kv["calls"], "{A}") {
 			c += "/templated-md"
 		}
